@@ -31,214 +31,240 @@ theorem source_tie : Generated.C05.sourceHashes = Expected.C05.sourceHashes := b
 
 abbrev EF : Facts := Expected.C05.facts
 
+abbrev OF : Facts := Expected.C05.oldFacts
+
+/-- the values of the selector facts since 4f1c6ee, 837b81e, efcbde2, a60b058 -/
+def selFacts (F : Facts) : Prop :=
+  F.methodPick = .shallowest ∧ F.methodAmbiguityCheck = true ∧ F.fieldLoopEmbedOnly = true ∧
+  F.fieldPick = .shallowest ∧ F.fieldDepthMinus = 1
+
+instance (F : Facts) : Decidable (selFacts F) := by unfold selFacts; infer_instance
+
+theorem selFacts_generated : selFacts Generated.C05.facts := by rw [facts_tie]; decide
+
 /-! ### method lookup -/
 
-/-- result of `lookupMethod` read as a selector result -/
-def selOfLookup : Option MHit → Sel
-  | some h => .method h
+/-- the selector `x.m` as `matchSelectorMethod` resolves it when no field is in the way:
+    `lookupMethod`, then the `methodCount` test -/
+def selMethodY (F : Facts) (D : Decls) (t : Nat) (m : String) : Sel :=
+  match lookupMethodY F D t m with
+  | some h => methodSelY F D t m h
   | none => .undefined
 
 /-- the Go rule applied to the methods named `m` only -/
 def selectMethod (D : Decls) (t : Nat) (m : String) : Sel :=
   pickShallowest ((mocc D t m).map (fun h => (h.depth, Sel.method h)))
 
-/-- **`lookupMethod` returns the first method of that name in depth-first declaration order**,
-    for every declaration set (cyclic ones included: both sides use the same fuel) -/
-theorem lookup_is_first_dfs (D : Decls) (t : Nat) (m : String) :
-    lookupMethodY D t m = (mocc D t m).head? := lookupMethodF_eq_head D _ t m
+/-- **`lookupMethod` returns the first of the shallowest methods of that name** in depth-first
+    declaration order, for every declaration set (cyclic ones included: both sides use the same fuel) -/
+theorem lookup_is_first_shallowest (F : Facts) (hP : F.methodPick = .shallowest) (D : Decls) (t : Nat) (m : String) :
+    lookupMethodY F D t m = firstMinBy (fun h => h.path.length) (mocc D t m) := by
+  unfold lookupMethodY mocc
+  rw [hP]
+  exact lookupMethodF_eq_firstMin D _ t m
 
-/-- **F04 domain.** When the first method found depth first is strictly shallower than every other
-    method of that name (`shallowFirstM`, decidable), `lookupMethod` selects what the Go
-    specification selects. All declaration sets, all types, all names. -/
-theorem lookup_eq_spec_partial (D : Decls) (t : Nat) (m : String) (h : shallowFirstM D t m = true) :
-    selOfLookup (lookupMethodY D t m) = selectMethod D t m := by
-  rw [lookup_is_first_dfs]
-  unfold selectMethod shallowFirstM at *
-  cases hm : mocc D t m with
-  | nil => rfl
-  | cons a rest =>
-    rw [hm] at h
-    simp only [List.head?_cons, selOfLookup, List.map_cons]
-    have hs := (headStrictMin_cons a.depth (rest.map MHit.depth)).mp h
-    have := pick_unique_min [] (rest.map (fun h => (h.depth, Sel.method h))) (a.depth, Sel.method a)
-      (by simp) (by
-        intro x hx
-        simp only [List.mem_map] at hx
-        obtain ⟨r, hr, rfl⟩ := hx
-        exact hs r.depth (List.mem_map.mpr ⟨r, hr, rfl⟩))
-    simpa using this.symm
+/-- **`methodCount(name, d)` counts the methods of that name at depth `d`** -/
+theorem methodCount_is_count (D : Decls) (t : Nat) (m : String) (d : Nat) (hd : d < D.length) :
+    methodCountY D d t m = countAt d ((mocc D t m).map MHit.depth) := methodCountY_eq D m D.length d t hd
+
+/-- **Method selectors resolve as in Go (F04, F05-1 repaired)**: the method found is the one at the
+    shallowest depth, and the selector is rejected as ambiguous exactly when several methods stand at
+    that depth. All declaration sets, all types, all names — no side condition. -/
+theorem lookup_eq_spec (F : Facts) (hP : F.methodPick = .shallowest) (hA : F.methodAmbiguityCheck = true)
+    (D : Decls) (t : Nat) (m : String) : selMethodY F D t m = selectMethod D t m := by
+  unfold selMethodY selectMethod
+  rw [lookup_is_first_shallowest F hP]
+  cases hm : firstMinBy (fun (h : MHit) => h.path.length) (mocc D t m) with
+  | none => rw [firstMinBy_none' _ _ hm]; rfl
+  | some h =>
+    obtain ⟨hmem, hmin⟩ := firstMinBy_spec _ _ h hm
+    have hlt : h.depth < D.length := moccF_depth_lt D m _ t h hmem
+    rw [pick_of_min _ (h.depth, Sel.method h) (List.mem_map.mpr ⟨h, hmem, rfl⟩)
+      (by intro x hx; obtain ⟨r, hr, rfl⟩ := List.mem_map.mp hx; exact hmin r hr),
+      filter_length_countAt (fun h => (h.depth, Sel.method h)) MHit.depth (fun _ => rfl)]
+    simp only [methodSelY, hA, Bool.true_and, methodCount_is_count D t m h.depth hlt]
+    have hpos : 0 < countAt h.depth ((mocc D t m).map MHit.depth) := by
+      unfold countAt
+      apply List.length_pos_of_mem (a := h.depth)
+      exact List.mem_filter.mpr ⟨List.mem_map.mpr ⟨h, hmem, rfl⟩, by simp⟩
+    by_cases h1 : countAt h.depth ((mocc D t m).map MHit.depth) = 1
+    · simp [h1]
+    · have : countAt h.depth ((mocc D t m).map MHit.depth) > 1 := by omega
+      simp [h1, this]
+
+/-- the same for the facts regenerated from the source -/
+theorem lookup_eq_spec_generated (D : Decls) (t : Nat) (m : String) :
+    selMethodY Generated.C05.facts D t m = selectMethod D t m :=
+  lookup_eq_spec _ selFacts_generated.1 selFacts_generated.2.1 D t m
 
 /-- **the fuel is sufficient**: on a well-formed declaration set (`WF`, decidable: struct-typed
     fields refer to earlier declarations, so embedding is acyclic) giving the searches more fuel
     than the number of declarations changes nothing — the enumerations of the specification, and
     hence `lookupMethod`, are the complete ones -/
-theorem fuel_adequate (D : Decls) (hwf : WF D) (t : Nat) (ht : t < D.length) (m : String) (extra : Nat) :
+theorem fuel_adequate (F : Facts) (hP : F.methodPick = .shallowest) (D : Decls) (hwf : WF D) (t : Nat) (ht : t < D.length)
+    (m : String) (extra : Nat) :
     moccF D (D.length + extra) t m = mocc D t m ∧ foccF D (D.length + extra) t m = focc D t m ∧
-    lookupMethodF D (D.length + extra) t m = lookupMethodY D t m := by
+    lookupMethodF F.methodPick D (D.length + extra) t m = lookupMethodY F D t m := by
   refine ⟨moccF_fuel D hwf m t _ _ (by omega) ht, foccF_fuel D hwf m t _ _ (by omega) ht, ?_⟩
   unfold lookupMethodY
-  rw [lookupMethodF_eq_head, lookupMethodF_eq_head, moccF_fuel D hwf m t _ _ (by omega) ht]
+  rw [hP, lookupMethodF_eq_firstMin, lookupMethodF_eq_firstMin, moccF_fuel D hwf m t _ _ (by omega) ht]
 
-/-- the condition is exact: outside it the interpreter and the specification differ -/
-theorem lookup_eq_spec_iff (D : Decls) (t : Nat) (m : String) :
-    selOfLookup (lookupMethodY D t m) = selectMethod D t m ↔ shallowFirstM D t m = true := by
-  constructor
-  · intro heq
-    rw [lookup_is_first_dfs] at heq
-    unfold selectMethod at heq
-    unfold shallowFirstM
-    cases hm : mocc D t m with
-    | nil => rfl
-    | cons a rest =>
-      rw [hm] at heq
-      simp only [List.head?_cons, selOfLookup, List.map_cons] at heq
-      rw [List.map_cons, headStrictMin_cons]
-      intro e he
-      obtain ⟨r, hr, rfl⟩ := List.mem_map.mp he
-      exact pick_head_method a rest heq.symm r hr
-  · exact lookup_eq_spec_partial D t m
-
-/-- **F04 witness**: `S{A{C}; B}` with `C.M` and `B.M`: `lookupMethod` finds `C.M` (depth 2, met
-    first), the specification selects `B.M` (depth 1). -/
+/-- `S{A{C}; B}` with `C.M` and `B.M` (the replay input of F04) -/
 def f04Decls : Decls :=
   [ .strct "C" [⟨"nc", .int, 0⟩] [⟨"M", false, 0⟩],
     .strct "A" [⟨"na", .int, 0⟩, ⟨"C", .emb, 0⟩] [],
     .strct "B" [⟨"nb", .int, 0⟩] [⟨"M", false, 0⟩],
     .strct "S" [⟨"ns", .int, 0⟩, ⟨"A", .emb, 1⟩, ⟨"B", .emb, 2⟩] [] ]
 
-theorem lookup_depth_witness :
+/-- **regression of F04**: `lookupMethod` finds `B.M` (depth 1), not `C.M` (depth 2, met first), as
+    the specification does; `s.M()` prints `B.M` under both rule sets. With the facts as they were
+    before 4f1c6ee the model still gives `C.M`. -/
+example :
     WF f04Decls ∧
-    lookupMethodY f04Decls 3 "M" = some ⟨0, [1, 1], ⟨"M", false, 0⟩⟩ ∧
+    lookupMethodY EF f04Decls 3 "M" = some ⟨2, [2], ⟨"M", false, 0⟩⟩ ∧
     select f04Decls 3 "M" = .method ⟨2, [2], ⟨"M", false, 0⟩⟩ ∧
-    shallowFirstM f04Decls 3 "M" = false := by decide
-
-/-- the same witness at program level: `s.M()` prints `C.M` in the interpreter, `B.M` in Go -/
-theorem lookup_depth_program_witness :
-    run .yaegi EF f04Decls [.var "v" 3 1, .call (.var "v") "M"] = .ran [["C.M", "4"]] false ∧
-    run .go EF f04Decls [.var "v" 3 1, .call (.var "v") "M"] = .ran [["B.M", "5"]] false := by decide
-
-/-- the domain is inhabited by a non-trivial hierarchy: promoted through two levels, shadowed on
-    the way -/
-example : shallowFirstM f04Decls 1 "M" = true ∧ (mocc f04Decls 1 "M").length = 1 ∧
-    selOfLookup (lookupMethodY f04Decls 1 "M") = .method ⟨0, [1], ⟨"M", false, 0⟩⟩ := by decide
+    selectY EF f04Decls 3 "M" = select f04Decls 3 "M" ∧
+    run .yaegi EF f04Decls [.var "v" 3 1, .call (.var "v") "M"] = .ran [["B.M", "5"]] false ∧
+    run .go EF f04Decls [.var "v" 3 1, .call (.var "v") "M"] = .ran [["B.M", "5"]] false ∧
+    lookupMethodY OF f04Decls 3 "M" = some ⟨0, [1, 1], ⟨"M", false, 0⟩⟩ ∧
+    run .yaegi OF f04Decls [.var "v" 3 1, .call (.var "v") "M"] = .ran [["C.M", "4"]] false := by decide
 
 /-! ### the selector case: field or method -/
 
 /-- **Selector resolution agrees with the Go specification** (`x.f` denotes the field or method at
-    the shallowest depth, which must be unique) on the decidable domain `selDom`:
-    the first method and the first field found depth first are each strictly the shallowest of
-    their kind, `lookupField` did not descend into a non-embedded field, and the depths of the two
-    are not in one of the two positions where the comparison of cfg.go is off by one.
-    All declaration sets, all types, all names, and whatever the extracted facts are. -/
-theorem select_eq_spec_partial (F : Facts) (D : Decls) (t : Nat) (x : String) (h : selDom F D t x = true) :
-    selectY F D t x = select D t x := by
-  unfold selDom at h
-  simp only [Bool.and_eq_true] at h
-  obtain ⟨⟨⟨hM, hF⟩, hX⟩, hC⟩ := h
-  unfold fieldLookupExact at hX
-  have hX' : lookupFieldY F D t x = (focc D t x).head? := by simpa using hX
-  unfold selectY select occs
-  rw [hX', lookup_is_first_dfs]
-  unfold shallowFirstM at hM
-  unfold shallowFirstF at hF
-  unfold depthsCompat at hC
-  cases hf : focc D t x with
-  | nil =>
-    cases hm : mocc D t x with
-    | nil => rfl
-    | cons m ms =>
-      rw [hm] at hM
-      have hs := (headStrictMin_cons m.depth (ms.map MHit.depth)).mp hM
-      have := pick_unique_min [] (ms.map (fun h => (h.depth, Sel.method h))) (m.depth, Sel.method m)
-        (by simp) (by
-          intro y hy
-          obtain ⟨r, hr, rfl⟩ := List.mem_map.mp hy
-          exact hs r.depth (List.mem_map.mpr ⟨r, hr, rfl⟩))
-      simpa using this.symm
-  | cons f fs =>
-    rw [hf] at hF hC
-    have hsF := (headStrictMin_cons f.depth (fs.map FHit.depth)).mp hF
-    have hfp : f.path.length = f.depth + 1 := by
-      have hne : f.path ≠ [] := foccF_path_ne D _ t x f (by unfold focc at hf; rw [hf]; simp)
-      unfold FHit.depth
-      cases hp : f.path with
-      | nil => exact absurd hp hne
-      | cons a as => simp
-    cases hm : mocc D t x with
-    | nil =>
-      have := pick_unique_min [] (fs.map (fun h => (h.depth, Sel.field h)) ++ []) (f.depth, Sel.field f)
-        (by simp) (by
-          intro y hy
-          simp only [List.append_nil] at hy
-          obtain ⟨r, hr, rfl⟩ := List.mem_map.mp hy
-          exact hsF r.depth (List.mem_map.mpr ⟨r, hr, rfl⟩))
-      simpa using this.symm
-    | cons m ms =>
-      rw [hm] at hM hC
-      have hsM := (headStrictMin_cons m.depth (ms.map MHit.depth)).mp hM
-      simp only [List.head?_cons] at hC
-      simp only [List.head?_cons, List.map_cons]
-      have hC' : m.depth < f.depth ∨ m.depth > f.depth + 1 := by
-        simp only [Bool.or_eq_true, decide_eq_true_eq] at hC
-        exact hC
-      rcases hC' with hlt | hgt
-      · -- the method is strictly shallower than every field
-        have h1 : m.depth < f.path.length := by omega
-        simp only [h1, if_true]
-        have := pick_unique_min ((f.depth, Sel.field f) :: fs.map (fun h => (h.depth, Sel.field h)))
-          (ms.map (fun h => (h.depth, Sel.method h))) (m.depth, Sel.method m)
+    the shallowest depth, which must be unique; otherwise the selector is illegal) on the decidable
+    domain `selDom`: not (several *fields* at the shallowest depth with no method at that depth or
+    above — finding F05-17, the only case left). Methods against methods, fields against methods,
+    promotion through embedded fields only, ambiguity rejection: all declaration sets, all types, all
+    names, for every fact value satisfying `selFacts` (F04, F05-1, F05-2, F05-3 repaired). -/
+theorem select_eq_spec_partial (F : Facts) (hF : selFacts F) (D : Decls) (t : Nat) (x : String)
+    (h : selDom D t x = true) : selectY F D t x = select D t x := by
+  obtain ⟨hP, hA, hE, hFP, hK⟩ := hF
+  have hM := lookup_eq_spec F hP hA D t x
+  unfold selMethodY selectMethod at hM
+  unfold selectY select occs lookupFieldY focc
+  rw [lookupFieldF_eq_firstMin F hE hFP D, hK]
+  unfold selDom fieldTie at h
+  unfold focc at h
+  cases hf : firstMinBy (fun (h : FHit) => h.path.length) (foccF D D.length t x) with
+  | none =>
+    rw [firstMinBy_none' _ _ hf]
+    simp only [List.map_nil, List.nil_append]
+    exact hM
+  | some fh =>
+    rw [hf] at h
+    obtain ⟨hfmem, hfmin⟩ := firstMinBy_spec _ _ fh hf
+    have hfmin' : ∀ b ∈ foccF D D.length t x, fh.depth ≤ b.depth := by
+      intro b hb; have := hfmin b hb; simp only [FHit.depth]; omega
+    have hfe : (fh.depth, Sel.field fh) ∈ (foccF D D.length t x).map (fun h => (h.depth, Sel.field h)) :=
+      List.mem_map.mpr ⟨fh, hfmem, rfl⟩
+    have hfpos : 0 < countAt fh.depth ((foccF D D.length t x).map FHit.depth) := by
+      unfold countAt
+      apply List.length_pos_of_mem (a := fh.depth)
+      exact List.mem_filter.mpr ⟨List.mem_map.mpr ⟨fh, hfmem, rfl⟩, by simp⟩
+    rw [lookup_is_first_shallowest F hP] at hM ⊢
+    cases hm : firstMinBy (fun (h : MHit) => h.path.length) (mocc D t x) with
+    | none =>
+      -- no method of that name: the field, which the domain makes the only one at its depth
+      rw [hm] at h
+      rw [firstMinBy_none' _ _ hm]
+      simp only [List.map_nil, List.append_nil]
+      rw [pick_of_min _ (fh.depth, Sel.field fh) hfe
+        (by intro y hy; obtain ⟨r, hr, rfl⟩ := List.mem_map.mp hy; exact hfmin' r hr),
+        filter_length_countAt (fun h => (h.depth, Sel.field h)) FHit.depth (fun _ => rfl)]
+      have : countAt fh.depth ((foccF D D.length t x).map FHit.depth) = 1 := by
+        simp only [Bool.and_true, Bool.not_eq_true', decide_eq_false_iff_not] at h
+        omega
+      simp [this]
+    | some mh =>
+      rw [hm] at h hM
+      obtain ⟨hmmem, hmmin⟩ := firstMinBy_spec _ _ mh hm
+      have hmmin' : ∀ b ∈ mocc D t x, mh.depth ≤ b.depth := hmmin
+      have hme : (mh.depth, Sel.method mh) ∈ (mocc D t x).map (fun h => (h.depth, Sel.method h)) :=
+        List.mem_map.mpr ⟨mh, hmmem, rfl⟩
+      simp only
+      have hfd : fh.path.length - 1 = fh.depth := rfl
+      rw [hfd]
+      by_cases hlt : mh.depth < fh.depth
+      · -- the method is strictly shallower than every field: the Go rule on the methods alone
+        rw [if_pos hlt]
+        simp only at hM
+        rw [hM]
+        rw [pick_of_min _ (mh.depth, Sel.method mh) hme
+          (by intro y hy; obtain ⟨r, hr, rfl⟩ := List.mem_map.mp hy; exact hmmin' r hr),
+          pick_of_min _ (mh.depth, Sel.method mh) (List.mem_append_right _ hme)
           (by
             intro y hy
-            simp only [List.mem_cons] at hy
-            rcases hy with rfl | hy
-            · exact hlt
-            · obtain ⟨r, hr, rfl⟩ := List.mem_map.mp hy
-              have := hsF r.depth (List.mem_map.mpr ⟨r, hr, rfl⟩)
-              simp only; omega)
-          (by
+            rcases List.mem_append.mp hy with hy | hy
+            · obtain ⟨r, hr, rfl⟩ := List.mem_map.mp hy; have := hfmin' r hr; simp only; omega
+            · obtain ⟨r, hr, rfl⟩ := List.mem_map.mp hy; exact hmmin' r hr),
+          List.filter_append]
+        have hnone : ((foccF D D.length t x).map (fun h => (h.depth, Sel.field h))).filter (fun y => y.1 == mh.depth) = [] := by
+          apply filter_none
+          intro y hy
+          obtain ⟨r, hr, rfl⟩ := List.mem_map.mp hy
+          have := hfmin' r hr
+          simp only [beq_eq_false_iff_ne, ne_eq]; omega
+        rw [hnone, List.nil_append]
+      · rw [if_neg hlt]
+        by_cases heq : mh.depth = fh.depth
+        · -- same depth: ambiguous under both rules
+          rw [if_pos heq]
+          rw [pick_of_min _ (fh.depth, Sel.field fh) (List.mem_append_left _ hfe)
+            (by
+              intro y hy
+              rcases List.mem_append.mp hy with hy | hy
+              · obtain ⟨r, hr, rfl⟩ := List.mem_map.mp hy; exact hfmin' r hr
+              · obtain ⟨r, hr, rfl⟩ := List.mem_map.mp hy; have := hmmin' r hr; simp only; omega)]
+          dsimp only
+          have h2 : (((foccF D D.length t x).map (fun h => (h.depth, Sel.field h)) ++
+              (mocc D t x).map (fun h => (h.depth, Sel.method h))).filter (fun y => y.1 == fh.depth)).length ≥ 2 := by
+            rw [List.filter_append, List.length_append,
+              filter_length_countAt (fun h => (h.depth, Sel.field h)) FHit.depth (fun _ => rfl),
+              filter_length_countAt (fun h => (h.depth, Sel.method h)) MHit.depth (fun _ => rfl)]
+            have : 0 < countAt fh.depth ((mocc D t x).map MHit.depth) := by
+              unfold countAt
+              apply List.length_pos_of_mem (a := fh.depth)
+              exact List.mem_filter.mpr ⟨List.mem_map.mpr ⟨mh, hmmem, heq⟩, by simp⟩
+            omega
+          rw [if_neg (by omega)]
+        · -- the field is strictly shallower than every method; the domain makes it the only one
+          rw [if_neg heq]
+          have hgt : fh.depth < mh.depth := by omega
+          rw [pick_of_min _ (fh.depth, Sel.field fh) (List.mem_append_left _ hfe)
+            (by
+              intro y hy
+              rcases List.mem_append.mp hy with hy | hy
+              · obtain ⟨r, hr, rfl⟩ := List.mem_map.mp hy; exact hfmin' r hr
+              · obtain ⟨r, hr, rfl⟩ := List.mem_map.mp hy; have := hmmin' r hr; simp only; omega),
+            List.filter_append]
+          have hnone : ((mocc D t x).map (fun h => (h.depth, Sel.method h))).filter (fun y => y.1 == fh.depth) = [] := by
+            apply filter_none
             intro y hy
             obtain ⟨r, hr, rfl⟩ := List.mem_map.mp hy
-            exact hsM r.depth (List.mem_map.mpr ⟨r, hr, rfl⟩))
-        simpa using this.symm
-      · -- the field is shallower by at least two levels
-        have h1 : ¬ m.depth < f.path.length := by omega
-        have h2 : ¬ m.depth = f.path.length := by omega
-        simp only [h1, h2, if_false]
-        have := pick_unique_min [] (fs.map (fun h => (h.depth, Sel.field h)) ++
-            (m.depth, Sel.method m) :: ms.map (fun h => (h.depth, Sel.method h))) (f.depth, Sel.field f)
-          (by simp)
-          (by
-            intro y hy
-            simp only [List.mem_append, List.mem_cons] at hy
-            rcases hy with hy | rfl | hy
-            · obtain ⟨r, hr, rfl⟩ := List.mem_map.mp hy
-              exact hsF r.depth (List.mem_map.mpr ⟨r, hr, rfl⟩)
-            · simp only; omega
-            · obtain ⟨r, hr, rfl⟩ := List.mem_map.mp hy
-              have := hsM r.depth (List.mem_map.mpr ⟨r, hr, rfl⟩)
-              simp only; omega)
-        simpa using this.symm
+            have := hmmin' r hr
+            simp only [beq_eq_false_iff_ne, ne_eq]; omega
+          rw [hnone, List.append_nil,
+            filter_length_countAt (fun h => (h.depth, Sel.field h)) FHit.depth (fun _ => rfl)]
+          have : countAt fh.depth ((foccF D D.length t x).map FHit.depth) = 1 := by
+            simp only [hgt, decide_true, Bool.and_true, Bool.not_eq_true', decide_eq_false_iff_not] at h
+            omega
+          simp [this]
 
 /-- the same for the facts regenerated from the source -/
-theorem select_eq_spec_generated (D : Decls) (t : Nat) (x : String)
-    (h : selDom Generated.C05.facts D t x = true) :
-    selectY Generated.C05.facts D t x = select D t x := select_eq_spec_partial _ D t x h
+theorem select_eq_spec_generated (D : Decls) (t : Nat) (x : String) (h : selDom D t x = true) :
+    selectY Generated.C05.facts D t x = select D t x := select_eq_spec_partial _ selFacts_generated D t x h
 
-/-- if `lookupField` looped over embedded fields only, its part of the domain would always hold -/
-theorem field_lookup_exact_of_embedOnly (F : Facts) (hF : F.fieldLoopEmbedOnly = true) (D : Decls) (t : Nat) (x : String) :
-    fieldLookupExact F D t x = true := by
-  unfold fieldLookupExact lookupFieldY focc
-  rw [lookupFieldF_eq_head F hF]
-  simp
+/-- a name that is no field anywhere below `t` is in the domain: **method selectors are resolved
+    as in Go without any side condition** (also through the whole selector case) -/
+theorem select_eq_spec_methods (F : Facts) (hF : selFacts F) (D : Decls) (t : Nat) (x : String)
+    (hnf : focc D t x = []) : selectY F D t x = select D t x := by
+  apply select_eq_spec_partial F hF
+  unfold selDom fieldTie
+  rw [hnf]
+  rfl
 
-/-- with the loop as it is, it holds on declaration sets without non-embedded struct fields -/
-theorem field_lookup_exact_of_plainFree (F : Facts) (D : Decls) (hD : plainFree D = true) (t : Nat) (x : String) :
-    fieldLookupExact F D t x = true := by
-  unfold fieldLookupExact lookupFieldY focc
-  rw [lookupFieldF_eq_head_plainFree F D hD]
-  simp
-
-/-- **witnesses for what `selDom` excludes** -/
+/-- declaration sets for the selector case: a `func()` field `A.M` and a method `B.M` -/
 def fmDecls : Decls :=
   [ .strct "A" [⟨"na", .int, 0⟩, ⟨"M", .func, 0⟩] [],
     .strct "B" [⟨"nb", .int, 0⟩] [⟨"M", false, 0⟩],
@@ -247,41 +273,49 @@ def fmDecls : Decls :=
     .strct "U" [⟨"nu", .int, 0⟩, ⟨"A", .emb, 0⟩, ⟨"C", .emb, 3⟩] [],
     .strct "P" [⟨"np", .int, 0⟩, ⟨"xa", .plain, 0⟩, ⟨"C", .emb, 3⟩] [] ]
 
-/-- field `A.M` and method `B.M` at the same depth: ambiguous in Go, the interpreter takes the
-    method (`d < len(ti)` compares a depth with a path length) -/
-theorem select_same_depth_witness :
-    WF fmDecls ∧ select fmDecls 2 "M" = .ambiguous ∧
-    selectY EF fmDecls 2 "M" = .method ⟨1, [2], ⟨"M", false, 0⟩⟩ ∧ depthsCompat fmDecls 2 "M" = false := by decide
-
-/-- field `A.M` at depth 1, method `B.M` at depth 2: Go selects the field, the interpreter reports
-    "ambiguous selector" (`d == len(ti)`) -/
-theorem select_false_ambiguity_witness :
-    select fmDecls 4 "M" = .field ⟨0, [1, 1], ⟨"M", .func, 0⟩⟩ ∧
-    selectY EF fmDecls 4 "M" = .ambiguous ∧ depthsCompat fmDecls 4 "M" = false := by decide
-
-/-- `lookupField` descends into the non-embedded field `xa A` and finds `A.M`, which Go does not
-    promote: Go selects the method `B.M` through the embedded `C` -/
-theorem select_plain_field_witness :
-    select fmDecls 5 "M" = .method ⟨1, [2, 1], ⟨"M", false, 0⟩⟩ ∧
-    lookupFieldY EF fmDecls 5 "M" = some ⟨0, [1, 1], ⟨"M", .func, 0⟩⟩ ∧
-    selectY EF fmDecls 5 "M" = .ambiguous ∧ fieldLookupExact EF fmDecls 5 "M" = false := by decide
-
-/-- two methods at the same depth: illegal in Go, the interpreter takes the first -/
+/-- two methods at the same depth -/
 def ambDecls : Decls :=
   [ .strct "A" [⟨"na", .int, 0⟩] [⟨"M", false, 0⟩],
     .strct "B" [⟨"nb", .int, 0⟩] [⟨"M", true, 0⟩],
     .strct "S" [⟨"ns", .int, 0⟩, ⟨"A", .emb, 0⟩, ⟨"B", .emb, 1⟩] [] ]
 
-theorem ambiguous_accepted_witness :
-    WF ambDecls ∧ select ambDecls 2 "M" = .ambiguous ∧
-    selectY EF ambDecls 2 "M" = .method ⟨0, [1], ⟨"M", false, 0⟩⟩ ∧
+/-- **regressions of F05-2, F05-3, F05-1** (the replay inputs of the findings): field and method at
+    the same depth — ambiguous; field one level above a method — the field; a field below a
+    non-embedded struct field is not promoted — the method; two methods at the same depth — ambiguous,
+    the program is rejected. Under the old facts the model still shows the old answers. -/
+example :
+    WF fmDecls ∧ WF ambDecls ∧
+    select fmDecls 2 "M" = .ambiguous ∧ selectY EF fmDecls 2 "M" = .ambiguous ∧
+    selectY OF fmDecls 2 "M" = .method ⟨1, [2], ⟨"M", false, 0⟩⟩ ∧
+    select fmDecls 4 "M" = .field ⟨0, [1, 1], ⟨"M", .func, 0⟩⟩ ∧ selectY EF fmDecls 4 "M" = select fmDecls 4 "M" ∧
+    selectY OF fmDecls 4 "M" = .ambiguous ∧
+    select fmDecls 5 "M" = .method ⟨1, [2, 1], ⟨"M", false, 0⟩⟩ ∧ selectY EF fmDecls 5 "M" = select fmDecls 5 "M" ∧
+    selectY OF fmDecls 5 "M" = .ambiguous ∧
+    select ambDecls 2 "M" = .ambiguous ∧ selectY EF ambDecls 2 "M" = .ambiguous ∧
+    selectY OF ambDecls 2 "M" = .method ⟨0, [1], ⟨"M", false, 0⟩⟩ ∧
     run .go EF ambDecls [.var "v" 2 1, .call (.var "v") "M"] = .reject ∧
-    run .yaegi EF ambDecls [.var "v" 2 1, .call (.var "v") "M"] = .ran [["A.M", "3"]] false := by decide
+    run .yaegi EF ambDecls [.var "v" 2 1, .call (.var "v") "M"] = .reject ∧
+    run .yaegi OF ambDecls [.var "v" 2 1, .call (.var "v") "M"] = .ran [["A.M", "3"]] false := by decide
 
-/-- non-vacuity of `selDom`: a field and a method of the same name, the method three levels
-    deeper; and a promoted method shadowing a deeper one -/
-example : selDom EF f04Decls 1 "M" = true ∧ selDom EF ambDecls 0 "M" = true ∧ selDom EF fmDecls 3 "M" = true := by decide
+/-- two `func()` fields `M` at the same depth -/
+def tieDecls : Decls :=
+  [ .strct "A" [⟨"na", .int, 0⟩, ⟨"M", .func, 0⟩] [],
+    .strct "B" [⟨"nb", .int, 0⟩, ⟨"M", .func, 0⟩] [],
+    .strct "S" [⟨"ns", .int, 0⟩, ⟨"A", .emb, 0⟩, ⟨"B", .emb, 1⟩] [] ]
 
+/-- **witness for what `selDom` excludes (F05-17)**: two fields at the same shallowest depth are
+    ambiguous in Go; `lookupField` takes the first, the program runs -/
+theorem select_field_tie_witness :
+    WF tieDecls ∧ select tieDecls 2 "M" = .ambiguous ∧
+    selectY EF tieDecls 2 "M" = .field ⟨0, [1, 1], ⟨"M", .func, 0⟩⟩ ∧ selDom tieDecls 2 "M" = false ∧
+    run .go EF tieDecls [.var "v" 2 1, .call (.var "v") "M"] = .reject ∧
+    run .yaegi EF tieDecls [.var "v" 2 1, .call (.var "v") "M"] = .ran [["A.f.M"]] false ∧
+    classify EF tieDecls [.var "v" 2 1, .call (.var "v") "M"] = "ambiguous-field-accepted" := by decide
+
+/-- non-vacuity of the domain and of `selFacts`: promoted methods, shadowing, a field and a method
+    of the same name at several relative depths are all inside -/
+example : selFacts EF ∧ selDom f04Decls 3 "M" = true ∧ selDom ambDecls 2 "M" = true ∧ selDom fmDecls 2 "M" = true ∧
+    selDom fmDecls 4 "M" = true ∧ selDom fmDecls 5 "M" = true := by decide
 
 /-! ### method sets -/
 
@@ -562,20 +596,21 @@ theorem typeswitch_chain_witness :
     typeSwitch (fun (x : Nat) => x == 2) [[1], [], [2]] = some 2 ∧
     typeSwitchY true .nextTest (fun (_ : Nat) => true) [[], [1], [2]] = some 2 := by decide
 
-/-! ### calls: where the selector rule agrees, the call does -/
+/-! ### calls, method values, interface values, assertions: where the rules agree, the statements do -/
 
 /-- **a method call on a variable, a pointer or `&v`** is accepted or rejected, and executed
     (same method, same receiver storage, same output, same state), identically under the
-    interpreter's rules and under Go's whenever the selector is in `selDom` and the two arms of the
-    receiver binding that serve value receivers copy (`hb`, the extracted values) — for every
+    interpreter's rules and under Go's whenever the selector is in `selDom` and both steps of the
+    receiver binding copy a value receiver (`bindCopies`, the extracted values) — for every
     declaration set, environment and state -/
-theorem call_agrees_partial (F : Facts) (D : Decls) (e : SEnv) (s : St) (r : Recv) (m : String) (t : Nat)
+theorem call_agrees_partial (F : Facts) (hF : selFacts F) (hb : bindCopies F) (D : Decls) (e : SEnv) (s : St)
+    (r : Recv) (m : String) (t : Nat)
     (hr : recvStatic e r = some (t, true))
     (hdyn : ∀ t' i s1, recvInst D s r = some (t', i, s1) → t' = t)
-    (h : selDom F D t m = true) (hb : F.recvBind.ptrToVal = .set ∧ F.recvBind.same = .set) :
+    (h : selDom D t m = true) :
     checkStmt .yaegi F D e (.call r m) = checkStmt .go F D e (.call r m) ∧
     execStmt .yaegi F D e s (.call r m) = execStmt .go F D e s (.call r m) := by
-  have hsel : selectY F D t m = select D t m := select_eq_spec_partial F D t m h
+  have hsel : selectY F D t m = select D t m := select_eq_spec_partial F hF D t m h
   cases r with
   | ifc i => simp [recvStatic] at hr
   | nil => simp [recvStatic] at hr
@@ -614,11 +649,129 @@ theorem call_agrees_partial (F : Facts) (D : Decls) (e : SEnv) (s : St) (r : Rec
         subst this
         simp only [sel, hsel, runSel_who F hb]
 
+/-- **a method value binds its receiver when it is evaluated (F05 repaired)**: `g := r.m` is accepted
+    or rejected and executed identically — the same closure over the same bound receiver, a copy for a
+    value receiver — when the receiver is read at creation (`atCreation`, since 3081633), the binding
+    copies and the selector is in `selDom`; every declaration set, environment and state -/
+theorem mval_agrees_partial (F : Facts) (hF : selFacts F) (hb : bindCopies F) (hc : F.recvBind.atCreation = true)
+    (D : Decls) (e : SEnv) (s : St) (x : String) (r : Recv) (m : String) (t : Nat)
+    (hr : recvStatic e r = some (t, true))
+    (hdyn : ∀ t' i s1, recvInst D s r = some (t', i, s1) → t' = t)
+    (h : selDom D t m = true) :
+    checkStmt .yaegi F D e (.mval x r m) = checkStmt .go F D e (.mval x r m) ∧
+    execStmt .yaegi F D e s (.mval x r m) = execStmt .go F D e s (.mval x r m) := by
+  have hsel : selectY F D t m = select D t m := select_eq_spec_partial F hF D t m h
+  constructor
+  · simp only [checkStmt, hr, selLegal_agree F D t m hsel]
+  · simp only [execStmt]
+    cases hri : recvInst D s r with
+    | none => rfl
+    | some p =>
+      obtain ⟨t', i, s1⟩ := p
+      have := hdyn t' i s1 hri
+      subst this
+      simp only [sel, hsel, hc, Bool.or_true, if_true, bindRecv_who F hb]
+
+/-- **calling a method value**: `g()` does the same under both rule sets in *every* state (whatever
+    closure `g` holds), when the binding copies: each call works on a fresh copy of the bound value
+    receiver, or on the storage a pointer receiver designates -/
+theorem callf_agrees (F : Facts) (hb : bindCopies F) (D : Decls) (e : SEnv) (s : St) (x : String) :
+    execStmt .yaegi F D e s (.callf x) = execStmt .go F D e s (.callf x) := by
+  simp only [execStmt, runBound_who F hb, runHit, runMeth_who F hb]
+
+/-- **a value assigned to a non-empty interface type is copied (F05-6 repaired)**: the interface
+    value the interpreter builds is the one Go builds — same dynamic type, and for a struct operand
+    a copy of the variable — when `genValueInterface` copies (`ifaceCopies`, since 16a5ac7) -/
+theorem iface_value_is_copy (F : Facts) (hc : F.ifaceCopies = true) (D : Decls) (t : Nat) (isPtr : Bool) (inst : Inst) (s : St) :
+    box .yaegi F D true t isPtr inst s = box .go F D true t isPtr inst s ∧
+    (isPtr = false → CopyInv D t inst s.heap ((box .yaegi F D true t isPtr inst s).1.inst, (box .yaegi F D true t isPtr inst s).2.heap)) := by
+  constructor
+  · cases isPtr <;> simp [box, hc]
+  · intro hp
+    subst hp
+    simp only [box, hc, Bool.true_or, Bool.not_true, Bool.and_false, Bool.or_false, Bool.false_eq_true, if_false, if_true]
+    exact copyInst_inv D t inst s.heap
+
+/-- the statement `var x I = r` (`I` a declared interface type) is executed identically in every
+    state (its static check, `implements`, is names-only: F05-7) -/
+theorem iface_assign_agrees (F : Facts) (hc : F.ifaceCopies = true) (D : Decls) (e : SEnv) (s : St) (x : String) (i : Nat) (r : Recv) :
+    execStmt .yaegi F D e s (.iface x (some i) r) = execStmt .go F D e s (.iface x (some i) r) := by
+  cases r <;> simp only [execStmt, Option.isSome_some, (iface_value_is_copy F hc D _ _ _ _).1]
+
+/-- **assertion outcomes (F05-9, F05-10 repaired)**: `y.(ty)` is ok under the interpreter's rules
+    exactly when it is under Go's — a nil operand included, whatever the operand type — provided that,
+    for an interface target type, the value is wrapped and the names-and-signatures comparison agrees
+    with Go's `implements` on it (F05-8, F06 are what this hypothesis excludes); struct and pointer
+    target types need no hypothesis -/
+theorem assert_outcome_agrees_partial (D : Decls) (d : Option Dyn) (ty : TyRef) (hn : ty ≠ .nil)
+    (h : tyIsIface D ty = true → ∀ dd, d = some dd → (dd.wrapped && matchIfaceY D dd ty) = matchG D (dynT d) ty) :
+    assertOk .yaegi D d ty = assertOk .go D d ty := by
+  unfold assertOk
+  simp only
+  by_cases hi : tyIsIface D ty = true
+  · rw [if_pos hi]
+    cases d with
+    | some dd => exact h hi dd rfl
+    | none =>
+      cases ty with
+      | named t => simp [tyIsIface] at hi; simp [matchG, dynT, hi]
+      | anon ms => simp [matchG, dynT]
+      | empty => simp [matchG, dynT]
+      | ptr t => simp [tyIsIface] at hi
+      | nil => exact absurd rfl hn
+  · rw [if_neg hi]
+    cases ty with
+    | ptr t =>
+      cases d with
+      | none => simp [matchG, dynT]
+      | some dd =>
+        simp only [matchG, dynT, Option.map_some]
+        rw [Bool.eq_iff_iff]
+        simp [DynT.mk.injEq]
+    | named t =>
+      have hi' : isIfaceT D t = false := by simpa [tyIsIface] using hi
+      cases d with
+      | none => simp [matchG, dynT, hi']
+      | some dd =>
+        simp only [matchG, dynT, Option.map_some, hi']
+        rw [Bool.eq_iff_iff]
+        simp [DynT.mk.injEq]
+    | anon ms => simp [tyIsIface] at hi
+    | empty => simp [tyIsIface] at hi
+    | nil => exact absurd rfl hn
+
+/-- a nil interface value asserted to any type: not ok under both rule sets (F05-9) -/
+theorem assert_nil_agrees (D : Decls) (ty : TyRef) (hn : ty ≠ .nil) :
+    assertOk .yaegi D none ty = assertOk .go D none ty :=
+  assert_outcome_agrees_partial D none ty hn (fun _ dd hd => by cases hd)
+
+/-- **the assertion statement** `x, ok := y.(ty)` / `x := y.(ty)` is executed identically — `ok`,
+    the value bound to `x` (a copy for a struct type), the panic of the one-result form on failure
+    (F05-10) — in every state where the outcome agrees -/
+theorem assert_agrees_partial (F : Facts) (D : Decls) (e : SEnv) (s : St) (x y : String) (ty : TyRef) (two : Bool)
+    (hn : ty ≠ .nil)
+    (h : ∀ d, look s y = some (.ifc d) → tyIsIface D ty = true → ∀ dd, d = some dd →
+      (dd.wrapped && matchIfaceY D dd ty) = matchG D (dynT d) ty) :
+    execStmt .yaegi F D e s (.assert x y ty two "") = execStmt .go F D e s (.assert x y ty two "") := by
+  simp only [execStmt]
+  cases hl : look s y with
+  | none => rfl
+  | some v =>
+    cases v with
+    | ifc d =>
+      simp only [assert_outcome_agrees_partial D d ty hn (h d hl), beq_self_eq_true, Bool.true_or, if_true]
+    | strct t i => rfl
+    | ptr t i => rfl
+    | fn c => rfl
+    | zero => rfl
+
 /-! ### receiver passing -/
 
-/-- the two arms of the receiver binding of `genFunctionWrapper` that serve methods with a value
-    receiver copy their operand into the fresh receiver slot (`dest.Set(src.Elem())`, `dest.Set(src)`) -/
-def recvCopies (F : Facts) : Prop := F.recvBind.ptrToVal = .set ∧ F.recvBind.same = .set
+/-- one of the two steps of the receiver binding of `genFunctionWrapper` that a value receiver goes
+    through copies: the callback (`d[numRet].Set(recv)`), or both arms that serve value receivers
+    (`recv = copyDeferArg(src.Elem())`, `recv = copyDeferArg(src)`) -/
+def recvCopies (F : Facts) : Prop :=
+  F.recvBind.call = .set ∨ (F.recvBind.ptrToVal = .set ∧ F.recvBind.same = .set)
 
 instance (F : Facts) : Decidable (recvCopies F) := by unfold recvCopies; infer_instance
 
@@ -636,12 +789,7 @@ theorem value_receiver_is_copy (w : Who) (F : Facts) (hF : recvCopies F)
     (hown : ∀ pa ∈ inst, viaPtr D owner pa.1 = true → pa.2 ≠ a) :
     cell (runBody (recvStorage w F D owner m srcPtr inst h).1 body (recvStorage w F D owner m srcPtr inst h).2) a
       = cell h a := by
-  have hgo : recvStorage w F D owner m srcPtr inst h = copyInst D owner inst h := by
-    cases w with
-    | go => simp [recvStorage, hm]
-    | yaegi => rw [recvStorage_who F hF]; simp [recvStorage, hm]
-  rw [hgo]
-  obtain ⟨⟨ext, hext⟩, hcells⟩ := copyInst_inv D owner inst h
+  obtain ⟨⟨ext, hext⟩, hcells⟩ := recvStorage_fresh w F D owner m hm srcPtr inst h (Or.inr hF)
   rw [runBody_other _ a (by
     intro pa hpa
     rcases hcells pa hpa with hfresh | ⟨hin, hv⟩
@@ -672,10 +820,10 @@ theorem value_receiver_is_copy_generated (D : Decls) (owner : Nat) (m : Meth) (h
   value_receiver_caller_unchanged .yaegi _ (by rw [facts_tie]; decide) D owner m hm srcPtr inst h body hin hfree
 
 /-- **a pointer receiver is the address**: the body works on the operand's own storage, whatever
-    the facts are (`dest.Set(src.Addr())` and `d[numRet] = src.Addr()` designate the same storage) -/
+    the facts are -/
 theorem pointer_receiver_is_address (w : Who) (F : Facts) (D : Decls) (owner : Nat) (m : Meth) (hm : m.ptr = true)
     (srcPtr : Bool) (inst : Inst) (h : Heap) : recvStorage w F D owner m srcPtr inst h = (inst, h) := by
-  simp [recvStorage, hm]
+  simp [recvStorage, bindRecv, enterRecv, hm]
 
 /-- `C{nc}` with `Bump` (value receiver) and `Inc` (pointer receiver); `M` embeds `*C`; `O` embeds
     `M`; `IB = interface{ Bump() }` -/
@@ -685,8 +833,9 @@ def rDecls : Decls :=
     .strct "O" [⟨"no", .int, 0⟩, ⟨"M", .emb, 1⟩] [],
     .iface "IB" [⟨"Bump", false, 0⟩] [] ]
 
-/-- the facts with the first arm of the binding aliasing the pointee (`d[numRet] = src.Elem()`) -/
-def aliasFacts : Facts := { EF with recvBind := { EF.recvBind with ptrToVal := .slot } }
+/-- the facts with the first arm of the binding and the callback aliasing the pointee
+    (`recv = src.Elem()`, `d[numRet] = recv`: the seeded change C05-2) -/
+def aliasFacts : Facts := { EF with recvBind := { EF.recvBind with ptrToVal := .slot, call := .slot } }
 
 /-- the four ways of reaching a value method through a pointer: pointer variable, promotion
     through an embedded `*C`, interface holding `*C`, method value bound from a pointer -/
@@ -699,7 +848,7 @@ def recvForms : List (List Stmt) :=
 /-- non-vacuity and regression: with the expected facts the four forms run as in Go (the object is
     unchanged: each call prints the incremented copy, the dump the old value), the hypotheses of the
     theorems hold, and the body of the generated methods writes its receiver -/
-example : recvCopies EF ∧ WF rDecls ∧ stdBody rDecls 0 = [.add [0] 1] ∧
+example : recvCopies EF ∧ bindCopies EF ∧ EF.recvBind.atCreation = true ∧ EF.ifaceCopies = true ∧ WF rDecls ∧ stdBody rDecls 0 = [.add [0] 1] ∧
     recvForms.all (fun p => run .yaegi EF rDecls p == run .go EF rDecls p && classify EF rDecls p == "in-domain") = true ∧
     run .go EF rDecls (recvForms.getD 0 []) = .ran [["C.Bump", "2"], ["C.Bump", "2"], ["v", "1"]] false ∧
     run .go EF rDecls (recvForms.getD 1 []) = .ran [["C.Bump", "4"], ["C.Bump", "4"], ["v", "1", "2", "3"]] false := by decide
@@ -735,49 +884,45 @@ example :
      run .yaegi { EF with defaultSwap := Expected.C05.oldDefaultSwap, clauseChain := Expected.C05.oldClauseChain } wDecls p
        = .ran [["case", "2"], ["v", "1"]] false) := by decide
 
-/-- **F05**: `g := v.Get; (mutate v); g()`: Go bound a copy of `v` when `g` was evaluated (prints
-    the old state), the interpreter reads `v` when `g` is called (prints the new state) -/
-theorem method_value_binding_witness :
-    run .go EF wDecls [.var "v" 0 1, .mval "g" (.var "v") "Get", .bump "v", .callf "g", .dump "v"]
-      = .ran [["W.Get", "2"], ["v", "11"]] false ∧
-    run .yaegi EF wDecls [.var "v" 0 1, .mval "g" (.var "v") "Get", .bump "v", .callf "g", .dump "v"]
-      = .ran [["W.Get", "12"], ["v", "11"]] false ∧
-    classify EF wDecls [.var "v" 0 1, .mval "g" (.var "v") "Get", .bump "v", .callf "g", .dump "v"]
-      = "method-value-late-binding" := by decide
-
-/-- without the mutation in between both agree (the domain is not empty) -/
+/-- **regression of F05**: `g := v.Get; (mutate v); g()`: the method value bound a copy of `v` when
+    it was evaluated (prints the old state) under both rule sets; with the facts as they were before
+    3081633 the model still reads `v` when `g` is called -/
 example :
-    run .go EF wDecls [.var "v" 1 1, .mval "g" (.var "v") "Get", .callf "g", .dump "v"] =
-    run .yaegi EF wDecls [.var "v" 1 1, .mval "g" (.var "v") "Get", .callf "g", .dump "v"] ∧
-    classify EF wDecls [.var "v" 1 1, .mval "g" (.var "v") "Get", .callf "g", .dump "v"] = "in-domain" := by decide
+    (let p := [Stmt.var "v" 0 1, .mval "g" (.var "v") "Get", .bump "v", .callf "g", .dump "v"]
+     run .go EF wDecls p = .ran [["W.Get", "2"], ["v", "11"]] false ∧
+     run .yaegi EF wDecls p = run .go EF wDecls p ∧ classify EF wDecls p = "in-domain" ∧
+     run .yaegi OF wDecls p = .ran [["W.Get", "12"], ["v", "11"]] false) := by decide
 
-/-- **F06**: `var x interface{} = &v; g, ok := x.(interface{ Get() })` with `Get` promoted from the
-    embedded `W`: ok in Go, not ok in the interpreter (the pointer is stored unwrapped in the
-    empty interface, and only wrapped values can be asserted to an interface type) -/
+/-- **F06 (what is left of it)**: `var x interface{} = &v; g, ok := x.(interface{ Get() })` with `Get`
+    promoted from the embedded `W`: ok in Go, not ok in the interpreter — a pointer (or a struct whose
+    type has no method of its own) is stored unwrapped in the empty interface, and only wrapped values
+    can be asserted to an interface type. A value that is wrapped (`&v` with `v` of type `W`, which
+    has methods of its own) is asserted and called as in Go since c2466b4. -/
 theorem assert_anonymous_iface_witness :
     run .go EF wDecls [.var "v" 1 1, .iface "x" none (.addr "v"), .assert "g" "x" (.anon [⟨"Get", false, 0⟩]) true "Get"]
       = .ran [["ok", "true"], ["W.Get", "3"]] false ∧
     run .yaegi EF wDecls [.var "v" 1 1, .iface "x" none (.addr "v"), .assert "g" "x" (.anon [⟨"Get", false, 0⟩]) true "Get"]
       = .ran [["ok", "false"]] false ∧
     classify EF wDecls [.var "v" 1 1, .iface "x" none (.addr "v"), .assert "g" "x" (.anon [⟨"Get", false, 0⟩]) true "Get"]
-      = "assert-from-empty-interface" := by decide
+      = "assert-from-empty-interface" ∧
+    run .yaegi EF wDecls [.var "v" 0 1, .iface "x" none (.addr "v"), .assert "g" "x" (.anon [⟨"Get", false, 0⟩]) true "Get"]
+      = run .go EF wDecls [.var "v" 0 1, .iface "x" none (.addr "v"), .assert "g" "x" (.anon [⟨"Get", false, 0⟩]) true "Get"] := by decide
 
-/-- a struct put in an interface is not copied: a later mutation of the variable is seen through
-    the interface -/
-theorem interface_holds_variable_witness :
-    run .go EF wDecls [.var "v" 0 1, .iface "i" (some 2) (.var "v"), .bump "v", .call (.ifc "i") "Get"]
-      = .ran [["W.Get", "2"]] false ∧
-    run .yaegi EF wDecls [.var "v" 0 1, .iface "i" (some 2) (.var "v"), .bump "v", .call (.ifc "i") "Get"]
-      = .ran [["W.Get", "12"]] false := by decide
+/-- **regression of F05-6**: a struct put in an interface is copied: a later mutation of the variable
+    is not seen through the interface (under the old facts it was) -/
+example :
+    (let p := [Stmt.var "v" 0 1, .iface "i" (some 2) (.var "v"), .bump "v", .call (.ifc "i") "Get"]
+     run .go EF wDecls p = .ran [["W.Get", "2"]] false ∧ run .yaegi EF wDecls p = run .go EF wDecls p ∧
+     classify EF wDecls p = "in-domain" ∧ run .yaegi OF wDecls p = .ran [["W.Get", "12"]] false) := by decide
 
 /-- a pointer method called on a function result / a value of `W` assigned to `interface{ Inc() }`:
-    rejected by Go, accepted by the interpreter -/
+    rejected by Go, accepted by the interpreter (F05-4, F05-7) -/
 theorem pointer_method_on_value_witness :
     run .go EF wDecls [.call (.tmp 0 1) "Inc"] = .reject ∧
     run .yaegi EF wDecls [.call (.tmp 0 1) "Inc"] = .ran [["W.Inc", "2"]] false ∧
     run .go EF wDecls [.var "v" 0 1, .iface "i" (some 3) (.var "v"), .call (.ifc "i") "Inc", .dump "v"] = .reject ∧
     run .yaegi EF wDecls [.var "v" 0 1, .iface "i" (some 3) (.var "v"), .call (.ifc "i") "Inc", .dump "v"]
-      = .ran [["W.Inc", "2"], ["v", "2"]] false := by decide
+      = .ran [["W.Inc", "2"], ["v", "1"]] false := by decide
 
 /-- method expressions work only for a method declared on the type itself with the same kind of
     receiver: `(*V).Get(&v)` (promoted, value receiver) fails at run time -/
@@ -787,19 +932,27 @@ theorem method_expression_witness :
     run .yaegi EF wDecls [.var "v" 0 1, .mexpr 0 false "Get" "v"] = run .go EF wDecls [.var "v" 0 1, .mexpr 0 false "Get" "v"] := by decide
 
 /-- assertions on an operand of non-empty interface type: receiver kinds are ignored (a `W` value
-    is found to implement `interface{ Inc() }`); a nil operand makes the interpreter fail even in the
-    two-result form; the one-result form does not panic when a method is missing -/
+    is found to implement `interface{ Inc() }`, F05-8) -/
 theorem assert_witnesses :
     run .go EF wDecls [.var "v" 0 1, .iface "i" (some 2) (.var "v"), .assert "j" "i" (.named 3) true ""]
       = .ran [["ok", "false"]] false ∧
     run .yaegi EF wDecls [.var "v" 0 1, .iface "i" (some 2) (.var "v"), .assert "j" "i" (.named 3) true ""]
       = .ran [["ok", "true"]] false ∧
+    classify EF wDecls [.var "v" 0 1, .iface "i" (some 2) (.var "v"), .assert "j" "i" (.named 3) true ""]
+      = "assert-interface-names-only" := by decide
+
+/-- **regressions of F05-9 and F05-10**: a nil operand in the two-result form gives `ok == false`; the
+    one-result form panics when a method is missing — as in Go -/
+example :
+    run .yaegi EF wDecls [.iface "i" (some 2) .nil, .assert "j" "i" (.named 3) true ""] = .ran [["ok", "false"]] false ∧
     run .go EF wDecls [.iface "i" (some 2) .nil, .assert "j" "i" (.named 3) true ""] = .ran [["ok", "false"]] false ∧
-    run .yaegi EF wDecls [.iface "i" (some 2) .nil, .assert "j" "i" (.named 3) true ""] = .ran [] true ∧
+    run .yaegi EF wDecls [.var "v" 0 1, .iface "i" (some 2) (.var "v"), .assert "j" "i" (.anon [⟨"Put", false, 0⟩]) false ""]
+      = .ran [] true ∧
     run .go EF wDecls [.var "v" 0 1, .iface "i" (some 2) (.var "v"), .assert "j" "i" (.anon [⟨"Put", false, 0⟩]) false ""]
       = .ran [] true ∧
-    run .yaegi EF wDecls [.var "v" 0 1, .iface "i" (some 2) (.var "v"), .assert "j" "i" (.anon [⟨"Put", false, 0⟩]) false ""]
-      = .ran [["asserted"]] false := by decide
+    classify EF wDecls [.iface "i" (some 2) .nil, .assert "j" "i" (.named 3) true ""] = "in-domain" ∧
+    classify EF wDecls [.var "v" 0 1, .iface "i" (some 2) (.var "v"), .assert "j" "i" (.anon [⟨"Put", false, 0⟩]) false ""]
+      = "in-domain" := by decide
 
 /-- type switches: on an operand of non-empty interface type neither an interface clause nor
     `case nil` ever matches; on an `interface{}` operand holding a wrapped value every interface
